@@ -11,7 +11,7 @@ ID = 'C07'
 LEVEL = 'model_checking'
 RULE = ('every history (operation sequence) of depth d over the event alphabet {asserta/assertz of p(a) p(b) p(X) '
         'p(f(Y)) q(a,b) flag; retract of p(a) p(X) p(f(X)) q(X,Y) flag nosuch(X), retract(p(X)) run to exhaustion / '
-        'abandoned after the 1st / after the 2nd answer; retractall of p(a) p(_) flag nosuch(_); patterns with a repeated variable q(X,X) and partially bound q(X,a) over q/2 facts; clear}, from 4 initial '
+        'abandoned after the 1st / after the 2nd answer; retractall of p(a) p(_) flag nosuch(_); facts of a predicate named like an API function (variable/1) and a zero-argument fact held twice and retracted once; patterns with a repeated variable q(X,X) and partially bound q(X,a) over q/2 facts; clear}, from 4 initial '
         'stores, in 3 dress-ups (Python API - for histories with a clear also with the Atom objects of the caller created once and held across the clear, and (full alphabet) with the query objects of the whole history constructed first and evaluated later, which must change nothing; compiled clauses; compiled clauses receiving the goal in a variable bound '
         'at run time). Each history is replayed on a fresh engine with the reference model (ordered lists, copy on '
         'assert) stepped alongside; after EVERY step the answers of the operation and the contents of p/1 q/2 flag/0 '
@@ -36,11 +36,18 @@ EVENTS = [
     ('assert', 'z', F('q', a, a)), ('assert', 'a', F('q', b, a)),
     ('retractall', F('q', X, X)), ('retract', F('q', X, X), 'all'), ('retractall', F('q', ANON, ('v', ('_', 2)))),
     ('retract', F('q', X, a), 'all'),
+    # a predicate whose NAME is one of the engine's API functions (facts are data: they are stored,
+    # enumerated and removed like any others), and a zero-argument fact held twice
+    ('assert', 'z', F('variable', a)), ('assert', 'a', F('variable', b)), ('retract', F('variable', X), 1),
+    ('retractall', F('variable', ANON)), ('retract', A('flag'), 1), ('assert', 'a', A('flag')),
 ]
+RESERVED = [27, 28, 29, 30, 31, 32, 6, 14, 20]
 CORE = [0, 1, 2, 3, 8, 9, 10, 17, 6, 14]
 CORE8 = [0, 2, 3, 8, 9, 10, 11, 16]
 INITIAL = [[], [pa], [pa, pb, pa], [F('q', a, b), F('q', a, a), F('q', b, a), pa]]
 KEYS = [('p', 1), ('q', 2), ('flag', 0), ('nosuch', 1)]
+KEYS_RESERVED = [('variable', 1), ('flag', 0), ('atom', 1)]
+_keys = {'now': KEYS}
 DRESS = ['api', 'compiled', 'goal-in-variable']
 # a 4th dress-up, run for the histories that contain clear: the Python API with the Atom objects
 # of the caller created once, when the engine is new, and HELD for the whole history (a caller
@@ -210,7 +217,7 @@ def do_event_ref(ref, ev):
 
 def readback_impl(yp):
     res = []
-    for name, n in KEYS:
+    for name, n in _keys['now']:
         vs = [yp.variable() for _ in range(n)]
         q = yp.query(name, vs)
         rows = []
@@ -226,7 +233,7 @@ def readback_impl(yp):
 
 def readback_ref(ref):
     res = []
-    for name, n in KEYS:
+    for name, n in _keys['now']:
         rows = []
         for _, t in ref.db.get((name, n), []):
             rows.append(canon(t[2] if t[0] == 'f' else ()))
@@ -288,7 +295,7 @@ def run_history(dress, init, hist, pytext):
         except Exception as e:  # noqa: BLE001
             return ('violation', '%s:readback-raises:%s' % (dress, impl.exc_sig(e)),
                     describe(dress, init, trace) + 'reading the store back after step %d raised %r' % (step + 1, e))
-        steps += len(KEYS)
+        steps += len(_keys['now'])
         mb = readback_ref(ref)
         if rb != mb:
             return ('violation', '%s:%s:store-differs' % (dress, ev[0]),
@@ -300,7 +307,7 @@ def run_history(dress, init, hist, pytext):
 
 def show_store(rb):
     out = []
-    for (name, n), rows in zip(KEYS, rb):
+    for (name, n), rows in zip(_keys['now'], rb):
         out.append('%s/%d: %s' % (name, n, [r if isinstance(r, str) else tuple(pp(x) if x[0] != 'v' else '_G%s' % x[1] for x in r) for r in rows]))
     return '; '.join(out)
 
@@ -312,9 +319,9 @@ def describe(dress, init, trace):
 def plan(tier):
     sh = []
     if tier == 'quick':
-        specs = [('full', 3, DRESS), ('core', 4, DRESS), ('qfocus', 4, DRESS)]
+        specs = [('full', 3, DRESS), ('core', 4, DRESS), ('qfocus', 4, DRESS), ('reserved', 4, DRESS)]
     else:
-        specs = [('full', 4, DRESS), ('core', 5, DRESS), ('core8', 6, ['api']), ('qfocus', 5, DRESS), ('all', 3, DRESS)]
+        specs = [('full', 4, DRESS), ('core', 5, DRESS), ('core8', 6, ['api']), ('qfocus', 5, DRESS), ('all', 3, DRESS), ('reserved', 5, DRESS)]
     for alpha, depth, dresses in specs:
         if alpha in ('full', 'core'):
             dresses = list(dresses) + [HELD]
@@ -328,6 +335,8 @@ def plan(tier):
                     continue
                 if alpha == 'qfocus' and ii not in (0, 3):
                     continue
+                if alpha == 'reserved' and ii != 0:
+                    continue
                 n = 16 if depth >= 4 else 4
                 for k in range(n):
                     sh.append((alpha, depth, dress, ii, k, n))
@@ -335,12 +344,13 @@ def plan(tier):
 
 
 def alphabet(alpha):
-    return {'full': list(range(21)), 'core': CORE, 'core8': CORE8, 'qfocus': [5, 13, 20, 21, 22, 23, 24, 25, 26],
+    return {'full': list(range(21)), 'core': CORE, 'core8': CORE8, 'qfocus': [5, 13, 20, 21, 22, 23, 24, 25, 26], 'reserved': RESERVED,
             'all': list(range(len(EVENTS)))}[alpha]
 
 
 def run_shard(spec):
     alpha, depth, dress, ii, k, n = spec
+    _keys['now'] = KEYS_RESERVED if alpha == 'reserved' else KEYS
     acc = Acc()
     pytext = None
     if dress not in ('api', HELD, DEFERRED):
@@ -361,7 +371,7 @@ def run_shard(spec):
         acc.n['validated'] += 1
         r = run_history(dress, INITIAL[ii], hist, pytext)
         if r[0] == 'violation':
-            case = {'dress': dress, 'init': ii, 'hist': list(hist)}
+            case = {'dress': dress, 'init': ii, 'hist': list(hist), 'alpha': alpha}
             acc.violation(r[1], (depth, idx), case, r[2], key='%s|%d|%s' % (dress, ii, list(hist)))
             continue
         _, states, steps, changed = r
@@ -377,6 +387,7 @@ def run_shard(spec):
 
 
 def replay(case):
+    _keys['now'] = KEYS_RESERVED if case.get('alpha') == 'reserved' else KEYS
     dress = case['dress']
     pytext = None if dress in ('api', HELD, DEFERRED) else impl.compile_text(show_program(script_for(dress)))
     r = run_history(dress, INITIAL[case['init']], case['hist'], pytext)
